@@ -43,7 +43,7 @@ func (c06) Bounds(tier string) map[string]interface{} {
 	if tier == "thorough" {
 		return map[string]interface{}{"graphs": "all N<=3 (lists<=2) + named N=4", "fault_set_size": "<=2 (N<=3), <=3 named", "kinds": c06Kinds, "foreign": true}
 	}
-	return map[string]interface{}{"graphs": "12 named shapes (N=2..4)", "fault_set_size": "<=2", "kinds": c06Kinds, "foreign": true}
+	return map[string]interface{}{"graphs": "12 named shapes (N=2..4) + two-level trees of 5 and 6 files (single faults)", "fault_set_size": "<=2", "kinds": c06Kinds, "foreign": true}
 }
 
 var c06QuickShapes = map[string][][]int{
@@ -124,6 +124,10 @@ func (c06) Cases(tier string, emit func(string, interface{})) {
 			addGraph(c06QuickShapes[k], k, 2)
 		}
 	}
+	// two-level trees: a failing leaf whose parent still waits for a slow sibling while another
+	// branch of the root completes (an error raised deep in one branch must still be the one reported)
+	addGraph([][]int{{1, 4}, {2, 3}, {}, {}, {}}, "tree5", 1)
+	addGraph([][]int{{1, 4}, {2, 3}, {}, {}, {5}, {}}, "tree6", 1)
 	// foreign files: root -> {b, F}, b -> {F}; and F alone as root import
 	for _, ff := range foreignFaults {
 		for si, shape := range []string{"solo", "sibling", "shared"} {
@@ -234,8 +238,15 @@ func (c06) Run(c core.Case) core.Outcome {
 			return fail("no-error|"+faultKindSig(gc, c.Kind), fmt.Sprintf("graph %s faults %s schedule %v: no error: %s", gc.Label, kinds, sched, obs))
 		}
 		named := false
+		errText := obs
+		if i := strings.Index(obs, " err="); i >= 0 {
+			errText = obs[i:]
+			if j := strings.LastIndex(errText, " reads="); j >= 0 {
+				errText = errText[:j] // the list of reads names every file: only the error text counts
+			}
+		}
 		for _, f := range failing {
-			if strings.Contains(obs, f) {
+			if strings.Contains(errText, f) {
 				named = true
 			}
 		}
